@@ -1,8 +1,8 @@
 #!/bin/bash
 # tools/mut.sh <ID> <outdir> [checks...]   confirm a sub-agent's mutation in its own worktree and run the checks against it
 ID=$1; OUT=$2; shift 2
-W=/tmp/mut_$ID
-RES=/root/scratch/mutres/${ID}_${OUT}.txt
+W=/tmp/${MUTPFX:-mut}_$ID
+RES=/root/scratch/mutres/${MUTPFX:-mut}_${ID}_${OUT}.txt
 exec > $RES 2>&1
 cd $W || exit 9
 build() { /venv/bin/python setup.py build_ext --inplace -j 4 > build.log 2>&1; echo "build rc=$?"; }
@@ -17,7 +17,7 @@ cd /verif
 CHECKS="$@"
 [ -z "$CHECKS" ] && CHECKS=$(/venv/bin/python -c "import json;print(' '.join(c['property_id'] for c in json.load(open('MANIFEST.json'))['checks']))")
 for c in $CHECKS; do
-  VERIF_REPO=$W VERIF_NOBUILD=1 ./check $c --no-evidence > /root/scratch/mutres/${ID}_${OUT}_$c.log 2>&1; rc=$?
-  echo "check $c rc=$rc $(grep -c '^VIOLATION' /root/scratch/mutres/${ID}_${OUT}_$c.log) violation-classes"
+  VERIF_REPO=$W VERIF_NOBUILD=1 ./check $c --no-evidence > /root/scratch/mutres/${MUTPFX:-mut}_${ID}_${OUT}_$c.log 2>&1; rc=$?
+  echo "check $c rc=$rc $(grep -c '^VIOLATION' /root/scratch/mutres/${MUTPFX:-mut}_${ID}_${OUT}_$c.log) violation-classes"
 done
 echo DONE
